@@ -100,16 +100,25 @@ def ob_read(levels, ctx, header=None):
         # (measure positions are doubles in the reader - slot/slots - so times are compared up to 1e-9 relative; they are >= 0)
         rel = F(1, 10**9)
 
-        def eq(a, b):
-            if a[0] != b[0] or tuple(a[-2:]) != tuple(b[-2:]):
-                return False
-            conds = [ctx.within(a[1], b[1], (a[1] + b[1] + 1) * rel, strict=False)]
-            if len(a) == 5:
-                conds.append(ctx.within(a[1] + a[2], b[1] + b[2], (a[1] + a[2] + b[1] + b[2] + 1) * rel, strict=False))
-            return ctx.all(*conds)
+        def mk_eq(rel_):
+            def eq(a, b):
+                if a[0] != b[0] or tuple(a[-2:]) != tuple(b[-2:]):
+                    return False
+                conds = [ctx.within(a[1], b[1], (a[1] + b[1] + 1) * rel_, strict=False)]
+                if len(a) == 5:
+                    conds.append(ctx.within(a[1] + a[2], b[1] + b[2], (a[1] + a[2] + b[1] + b[2] + 1) * rel_, strict=False))
+                return ctx.all(*conds)
 
+            return eq
+
+        eq = mk_eq(rel)
         ctx.check(lab + ".hits.column-time", same_multiset(ctx, hl, rh, eq=eq), note="%r vs %r" % (hl[:3], rh[:3]))
         ctx.check(lab + ".holds.column-time-length", same_multiset(ctx, ll, rl, eq=eq), note="%r vs %r" % (ll[:3], rl[:3]))
+        # twin facets with a coarse tolerance: a solver counterexample to them is off by more than 0.01 %, which the float replay
+        # sees (counterexamples to the exact facets above may differ by 1e-9 only)
+        loose = mk_eq(F(1, 10**4))
+        ctx.check(lab + ".hits.column-time{within-0.01%}", same_multiset(ctx, hl, rh, eq=loose))
+        ctx.check(lab + ".holds.column-time-length{within-0.01%}", same_multiset(ctx, ll, rl, eq=loose))
         bp = list(zip(col(m.bpms.df, "offset"), col(m.bpms.df, "bpm")))
         ctx.check(lab + ".tempo.initial", ctx.any(*[ctx.all(ctx.eq(t, 0), ctx.eq(v, h["bpm"])) for t, v in bp]))
         prev = h["bpm"]
@@ -145,6 +154,8 @@ def level_sets():
     S["odd-slot-counts"] = [(0, 2, [N("hit") if j in (1, 4) else None for j in range(5)]), (1, 3, [N("head") if j == 3 else None for j in range(7)]),
                             (2, 3, [N("tail") if j == 7 else None for j in range(10)]), (1, 1, [B("a") if j == 13 else None for j in range(20)]),
                             (3, 4, [N("hit") if j == 101 else None for j in range(256)])]
+    S["note-inside-ln-across-tempos"] = [(0, 2, [N("head")]), (1, 1, [B("a")]), (2, 3, [None, N("hit")]), (3, 1, [None, B("b")]), (4, 2, [N("tail"), None]), (5, 4, [N("hit")]),
+                                         (2, 5, [N("head"), None, None, None]), (3, 5, [None, None, None, N("tail")])]
     S["empty"] = []
     return S
 
